@@ -79,6 +79,24 @@ def handle (j : Json) : Except String Json := do
     match pretty imps p with
     | .ok t => pure (Json.mkObj ([("ok", strJ t), ("stmts", stmtsJ)] ++ flags))
     | .error e => pure (Json.mkObj [("err", errJ e), ("stmts", stmtsJ)])
+  | "stmt_pretty" =>
+    let fromname ← match jopt j "fromname" with
+      | none => pure none
+      | some v => do let t ← v.getStr?; pure (some (toStr t))
+    let aliases ← (← jarr j "aliases").toList.mapM fun a => do
+      let arr ← a.getArr?
+      if arr.size ≠ 2 then throw "alias"
+      let n ← arr[0]!.getStr?
+      let m ← optStr arr[1]!
+      pure ((toStr n, m) : Alias)
+    let p ← paramsOf j
+    let col ← match jopt j "col" with
+      | none => pure none
+      | some v => do let n ← v.getNat?; pure (some n)
+    let fs ← jnat j "fs"
+    match Stmt.pretty ⟨fromname, aliases⟩ p col fs with
+    | .ok t => pure (Json.mkObj [("ok", strJ t)])
+    | .error e => pure (Json.mkObj [("err", errJ e)])
   | "parse" =>
     let t ← jstr j "text"
     match parseBlock (toStr t) with
